@@ -138,4 +138,109 @@ theorem mergeCombos_values_stable (ctx : Ctx) (st0 : Store) :
               · exact List.mem_append_left _ he
             rw [c e hin, hval e he]
 
+/-- the set only grows -/
+theorem mergeCombos_set_mono (ctx : Ctx) : ∀ (combos : List (List Areq)) (st : Store) (set : List Entry) (e : Entry),
+    e ∈ set → e ∈ (mergeCombos ctx st set combos).2
+  | [], _, _, _, h => h
+  | c :: cs, st, set, e, h => by
+    simp only [mergeCombos]
+    split
+    · exact mergeCombos_set_mono ctx cs st set e h
+    · split
+      · exact mergeCombos_set_mono ctx cs st set e h
+      · split
+        · exact mergeCombos_set_mono ctx cs _ set e h
+        · refine mergeCombos_set_mono ctx cs _ _ e ?_
+          unfold setAdd
+          dsimp only
+          split
+          · exact h
+          · exact List.mem_append_left _ h
+
+/-- every request of the resulting set has its objects in the resulting store, and the store has only grown -/
+theorem mergeCombos_arrs_lt (ctx : Ctx) (st0 : Store) :
+    ∀ (combos : List (List Areq)) (st : Store) (set : List Entry),
+      (∀ combo ∈ combos, ComboOk ctx st0 combo) → Good st0 st →
+      (∀ e ∈ set, ∀ i ∈ e.areq.arrs, i < st.length) →
+      ∀ e ∈ (mergeCombos ctx st set combos).2, ∀ i ∈ e.areq.arrs, i < (mergeCombos ctx st set combos).1.length
+  | [], st, set, _, _, hs => hs
+  | combo :: rest, st, set, hc, hg, hs => by
+    have hrest : ∀ c ∈ rest, ComboOk ctx st0 c := fun c h => hc c (List.mem_cons_of_mem _ h)
+    simp only [mergeCombos]
+    split
+    · exact mergeCombos_arrs_lt ctx st0 rest st set hrest hg hs
+    · split
+      · exact mergeCombos_arrs_lt ctx st0 rest st set hrest hg hs
+      · have hf := consolidate_frame ctx st0 st combo hg (hc combo List.mem_cons_self)
+        have hg' : Good st0 (consolidate ctx st combo).1 :=
+          ⟨Nat.le_trans hg.len hf.1, fun n hn => by rw [hf.2 n (Nat.lt_of_lt_of_le hn hg.len), hg.frame n hn]⟩
+        have hs' : ∀ e ∈ set, ∀ i ∈ e.areq.arrs, i < (consolidate ctx st combo).1.length :=
+          fun e he i hi => Nat.lt_of_lt_of_le (hs e he i hi) hf.1
+        split
+        · exact mergeCombos_arrs_lt ctx st0 rest _ set hrest hg' hs'
+        · have hnew := consolidate_arrs_lt ctx st0 st combo hg (hc combo List.mem_cons_self)
+          refine mergeCombos_arrs_lt ctx st0 rest _ _ hrest hg' ?_
+          intro e he i hi
+          unfold setAdd at he
+          dsimp only at he
+          split at he
+          · exact hs' e he i hi
+          · rcases List.mem_append.mp he with h | h
+            · exact hs' e h i hi
+            · rw [List.mem_singleton.mp h] at hi; exact hnew i hi
+
+theorem mergeCombos_length_ge (ctx : Ctx) (st0 : Store) (combos : List (List Areq)) (st : Store) (set : List Entry)
+    (hc : ∀ combo ∈ combos, ComboOk ctx st0 combo) (hg : Good st0 st)
+    (hs : ∀ e ∈ set, ∀ i ∈ e.areq.arrs, i < st.length) : st.length ≤ (mergeCombos ctx st set combos).1.length := by
+  induction combos generalizing st set with
+  | nil => exact Nat.le_refl _
+  | cons combo rest ih =>
+    have hrest : ∀ c ∈ rest, ComboOk ctx st0 c := fun c h => hc c (List.mem_cons_of_mem _ h)
+    simp only [mergeCombos]
+    split
+    · exact ih st set hrest hg hs
+    · split
+      · exact ih st set hrest hg hs
+      · have hf := consolidate_frame ctx st0 st combo hg (hc combo List.mem_cons_self)
+        have hg' : Good st0 (consolidate ctx st combo).1 :=
+          ⟨Nat.le_trans hg.len hf.1, fun n hn => by rw [hf.2 n (Nat.lt_of_lt_of_le hn hg.len), hg.frame n hn]⟩
+        have hs' : ∀ e ∈ set, ∀ i ∈ e.areq.arrs, i < (consolidate ctx st combo).1.length :=
+          fun e he i hi => Nat.lt_of_lt_of_le (hs e he i hi) hf.1
+        split
+        · exact Nat.le_trans hf.1 (ih _ set hrest hg' hs')
+        · have hnew := consolidate_arrs_lt ctx st0 st combo hg (hc combo List.mem_cons_self)
+          refine Nat.le_trans hf.1 (ih _ _ hrest hg' ?_)
+          intro e he i hi
+          unfold setAdd at he
+          dsimp only at he
+          split at he
+          · exact hs' e he i hi
+          · rcases List.mem_append.mp he with h | h
+            · exact hs' e h i hi
+            · rw [List.mem_singleton.mp h] at hi; exact hnew i hi
+
+/-- the same over all anchors (`_merge_candidates` as a whole) -/
+theorem mergeAnchors_values_stable (ctx : Ctx) (st0 : Store) (groups : List (Nat × List Areq))
+    (hc : ∀ an ls, listsFor groups an = some ls → ∀ combo ∈ prods ls, ComboOk ctx st0 combo) :
+    ∀ (anchors : List Nat) (st : Store) (set : List Entry), Good st0 st →
+      (∀ e ∈ set, ∀ i ∈ e.areq.arrs, i < st.length) →
+      Good st0 (mergeAnchors ctx groups st set anchors).1 ∧
+      (∀ n, n < st.length → getArr (mergeAnchors ctx groups st set anchors).1 n = getArr st n) ∧
+      (∀ e ∈ set, valueOf (mergeAnchors ctx groups st set anchors).1 e.areq = valueOf st e.areq) ∧
+      (∀ e ∈ (mergeAnchors ctx groups st set anchors).2, ∀ i ∈ e.areq.arrs, i < (mergeAnchors ctx groups st set anchors).1.length)
+  | [], st, set, hg, hs => ⟨hg, fun _ _ => rfl, fun _ _ => rfl, hs⟩
+  | an :: rest, st, set, hg, hs => by
+    simp only [mergeAnchors]
+    cases hl : listsFor groups an with
+    | none => exact mergeAnchors_values_stable ctx st0 groups hc rest st set hg hs
+    | some ls =>
+      simp only []
+      obtain ⟨g1, f1, v1⟩ := mergeCombos_values_stable ctx st0 (prods ls) st set (hc an ls hl) hg hs
+      have hs1 := mergeCombos_arrs_lt ctx st0 (prods ls) st set (hc an ls hl) hg hs
+      obtain ⟨g2, f2, v2, l2⟩ := mergeAnchors_values_stable ctx st0 groups hc rest _ _ g1 hs1
+      refine ⟨g2, fun n hn => ?_, fun e he => ?_, l2⟩
+      · have hle : st.length ≤ (mergeCombos ctx st set (prods ls)).1.length := mergeCombos_length_ge ctx st0 (prods ls) st set (hc an ls hl) hg hs
+        rw [f2 n (Nat.lt_of_lt_of_le hn hle), f1 n hn]
+      · rw [v2 e (mergeCombos_set_mono ctx (prods ls) st set e he), v1 e he]
+
 end Placement.MergeStable
